@@ -445,6 +445,25 @@ class Unit:
         spec.region["name"] = m.group(1) if m else "region"
         return "%s {\n%s\n%s\n}" % (rg["sig"], body, rg.get("epilogue", ""))
 
+    def _disambiguate(self, st, pat, hits, spec):
+        btxt = self._load_baseline().get(self.item_key(spec))
+        if btxt is None:
+            return None
+        import difflib
+        bt = [t.text for t in sig(lex(btxt))]
+        bh = [i for i in range(len(bt) - len(pat) + 1) if bt[i:i + len(pat)] == pat]
+        if len(bh) != 1:
+            return None
+        ct = [t.text for t in st]
+        sm = difflib.SequenceMatcher(None, bt, ct, autojunk=False)
+        for a, b, n in sm.get_matching_blocks():
+            if a <= bh[0] and bh[0] + len(pat) <= a + n:
+                tgt = b + (bh[0] - a)
+                for h in hits:
+                    if h[0] == tgt:
+                        return h
+        return None
+
     def _splice_fn(self, text, spec, sid_base, info, probe):
         """all splice positions are computed on the same (rewritten) text, then applied together"""
         st = sig(lex(text))
@@ -526,6 +545,13 @@ class Unit:
                     # fact is recorded; obligations that verified on the unchanged tree and now fail are still reported
                     info.setdefault("lost_anchors", []).append("%s: `%s`" % (sid_base, arg))
                     continue
+                if nth == 0 and len(hits) > 1:
+                    # the statement was unique when the hint was written and the edited source now has it several times:
+                    # pick the occurrence that the baseline source aligns with (token alignment), and record the fact
+                    pick = self._disambiguate(st, pat, hits, spec)
+                    if pick is not None:
+                        hits = [pick]
+                        info.setdefault("approx_anchors", []).append("%s: `%s` (disambiguated against baseline)" % (sid_base, arg))
                 if (nth == 0 and len(hits) != 1) or len(hits) < nth:
                     raise UnitError("%s: anchor `%s` matches %d times" % (sid_base, arg, len(hits)))
                 nth = max(nth, 1)
